@@ -51,7 +51,7 @@ def plan(tier, seed):
 
 
 def required(tier):
-    r = {"tridiag-solver": 100, "onestep-const": 25, "onestep-func": 30, "const-vs-func": 20, "ambient-kernel:implicit_1Dx": 4,
+    r = {"tridiag-solver": 100, "onestep-const": 25, "onestep-func": 30, "onestep-timevar": 40, "const-vs-func": 20, "ambient-kernel:implicit_1Dx": 4,
          "ambient-kernel:implicit_2Dx": 4, "ambient-kernel:implicit_2Dy": 4}
     for nd in range(1, 6):
         for ax in range(nd):
@@ -306,6 +306,32 @@ def run_onestep(spec, rec, Integration, Numerics):
                 alt = scheme.ref_step(alt, grids, axis, nu, ms, gamma, h, T, delj_trick=True, beta=beta, overflow_delta="half")
             err = min(err, relerr(out, alt))
         rec.close("onestep-func" if asfunc else "onestep-const", err, TOL, site=site, tags=tags)
+        # every parameter of every population genuinely varying in time: the (implicit) scheme uses the values at the end of the
+        # step for sizes, migration, selection and theta0 alike, in all five drivers
+        ramps = {k: float(rng.uniform(-0.4, 0.8)) for k in kw if k not in ("beta",) and rng.random() < 0.75}
+        if not ramps:
+            ramps = {PNAMES[nd][0][nd - 1]: 0.5}
+        ramps.setdefault(PNAMES[nd][0][int(rng.integers(nd))], float(rng.uniform(0.2, 0.8)))
+        kw3 = dict(kw)
+        for k, a in ramps.items():
+            kw3[k] = (lambda t, v0=kw[k], a=a, T=T: v0 * (1 + a * t / T))
+        end = {k: (kw[k] * (1 + ramps[k]) if k in ramps else kw[k]) for k in kw}
+        nus_, mn_, gn_, hn_ = PNAMES[nd]
+        per_end = []
+        for i in range(nd):
+            ms_e = [end["m%d%d" % (i + 1, j + 1)] for j in range(nd) if j != i]
+            per_end.append((end[nus_[i]], ms_e, end[gn_[i]], end[hn_[i]]))
+        Integration.use_delj_trick = False
+        try:
+            okv, outv = rec.noraise("driver-returns", lambda: f(phi0.copy(), xx, T, **kw3), site=site, tags=dict(tags, timevar=True))
+        finally:
+            Integration.use_delj_trick = old
+        if okv:
+            refv = scheme.inject_ref(phi0, grids, T, end["theta0"])
+            for axis in range(nd):
+                nu_e, ms_e, gamma_e, h_e = per_end[axis]
+                refv = scheme.ref_step(refv, grids, axis, nu_e, ms_e, gamma_e, h_e, T, delj_trick=False, beta=beta)
+            rec.close("onestep-timevar", relerr(outv, refv), TOL, site=site, tags=dict(tags, timevar=True, ramped=sorted(ramps)[:4]))
 
 
 def run_constfunc(spec, rec, Integration, Numerics):
